@@ -240,9 +240,20 @@ func parmapWorld(r *R) {
 	pulled := 0
 	root := RootCtx(r)
 	ctorCtx := root
-	ctorKind := r.Choose(6, "ctorctx")
-	if ctorKind == 5 {
+	ctorKind := r.Choose(8, "ctorctx")
+	switch ctorKind {
+	case 5:
 		ctorCtx = NewCtx(root, "ctor")
+	case 6:
+		// the caller's context is already over when MapStream is called: cancelled, or with its
+		// deadline in the past
+		ctorCtx = PreCancelled(root, "ctor")
+		r.Fault("ctx_precancelled")
+		r.Probe("mapstream-called-with-ended-context")
+	case 7:
+		ctorCtx = PastDeadline(root, "ctor")
+		r.Fault("ctx_precancelled")
+		r.Probe("mapstream-called-with-ended-context")
 	}
 	wrapped := &pullCounter{Src: src, onPull: func() { pulled++; onPull() }}
 	ms := parallel.MapStream[int, int](ctorCtx.C, wrapped, parallelism, bufferSize, f)
